@@ -26,7 +26,7 @@ var c19Kinds = []string{"good", "empty-file", "truncated-good", "random-bytes", 
 func c19Counts(tier string) (enumerated, random, cli, strace int) {
 	n := len(c19Kinds)
 	if tier == "thorough" {
-		return n + n*n + n*n*n + n*n*n*n, 6000 + 2*len(c19RunSizes(tier)), 200, 60
+		return n + n*n + n*n*n + n*n*n*n, 30000 + 2*len(c19RunSizes(tier)), 600, 150
 	}
 	return n + n*n + n*n*n, 1200 + 2*len(c19RunSizes(tier)), 24, 10
 }
